@@ -94,12 +94,11 @@ class Gen18:
             return s
 
         def tr(px, py):
-            if px is None and py is None:
-                return ""
+            # a transform written on the <reuse> itself stays first; the placement is a translation appended to it
+            own = getattr(self, "reuse_transform", None)
             px, py = px or 0, py or 0
-            if px == 0 and py == 0:
-                return ""
-            return ' transform="translate(%d, %d)"' % (px, py)
+            parts = ([own] if own else []) + (["translate(%d, %d)" % (px, py)] if (px, py) != (0, 0) else [])
+            return (' transform="%s"' % " ".join(parts)) if parts else ""
         if kind == "rect":
             return '<rect%s%s width="%d" height="%d" text="%s" class="%s base %s"%s/>' % (ida, pos(x, y), w, h, lab, cls, cls_extra, sty)
         if kind == "circle":
@@ -161,6 +160,12 @@ class Gen18:
                 attrs += ' style="%s"' % rsty
             if x is not None:
                 attrs += ' x="%d" y="%d"' % (x, y)
+            self.reuse_transform = None
+            if kind in ("group", "symbol", "nested", "const-group") and r.random() < 0.3:
+                # group instance with a transform of its own as well as (possibly) an offset, for templates in <specs>, in <defs>
+                # and inline alike
+                self.reuse_transform = r.choice(["rotate(45)", "scale(2)", "rotate(30 1 2)", "scale(1.5, 0.5)", "skewX(10)"])
+                attrs += ' transform="%s"' % self.reuse_transform
             if kind == "alias":
                 env["n"] = r.randint(1, 8)
                 attrs += ' n="%d"' % env["n"]
@@ -179,6 +184,7 @@ class Gen18:
                 nbound += 1
             uses_p.append("  <reuse%s/>" % attrs)
             uses_u.append("  " + self.inline(tid, env, rid, rcls, rsty, x, y))
+            self.reuse_transform = None
         # an instance made inside <specs> (a partial application given an id): not rendered, yet it stands for the written-out
         # element, so elements outside can take position and size from it
         spec_inst_p = spec_inst_u = None
